@@ -669,6 +669,19 @@ func TestVerifC11(t *testing.T) {
 			lbl string
 		}
 		var roots []root
+		// sometimes a stream is open in the target while the copies are made: every
+		// Put of the Copier is queued until it is closed, so all copies are alive at once
+		var hold io.WriteCloser
+		if rng.Chance(1, 4) {
+			hold, err = w.OpenStream(w.Alloc(), pdf.Dict{"Held": pdf.Boolean(true)})
+			if err != nil {
+				c.Violationf("harness/target-writer", "OpenStream: %v", err)
+				return
+			}
+			hold.Write([]byte("open while the copies are made"))
+			ops = append(ops, "target-stream-open")
+			c.R.Count("copies_made_while_a_target_stream_is_open", 1)
+		}
 		nroots := 1 + rng.Intn(3)
 		for i := 0; i < nroots+len(forced); i++ {
 			n := kit.Pick(rng, g.nums)
@@ -714,6 +727,12 @@ func TestVerifC11(t *testing.T) {
 			}
 			roots = append(roots, root{g.objs[n], tref, fmt.Sprintf("Copy(value of %d)", n)})
 			ops = append(ops, fmt.Sprintf("Copy(%d)", n))
+		}
+		if hold != nil {
+			if err := hold.Close(); err != nil {
+				c.Violationf("copy-error/queued-puts/"+srcKind, "closing the stream that was open in the target during the copies: %v", err)
+				return
+			}
 		}
 		pages := w.Alloc()
 		w.Put(pages, pdf.Dict{"Type": pdf.Name("Pages"), "Kids": pdf.Array{}, "Count": pdf.Integer(0)})
